@@ -130,11 +130,12 @@ theorem deadlock_free {init s : State} (hi : Init init) (r : Reach init s)
 
 /-! ## The regenerated table -/
 
-/-- No flag is permitted.  (Until /repo de6a3af `BsTree.Traverse` sent the items to its caller from a helper
+/-- No flag that concerns locking is permitted; `atomicOutsideLock` (an access to a field of a `sync/atomic` type outside
+the critical section) is not a race and is the business of C02's table obligation.  (Until /repo de6a3af `BsTree.Traverse` sent the items to its caller from a helper
 goroutine that held the read lock, and that one shape — `traverseProducer` — was admitted under the reading that the
 callback does not use the tree.  Three independent reviewers showed the deadlock that reading hid; Traverse now collects
 under the read lock and calls back after releasing it, so it is an ordinary `r` section and the exception is gone.) -/
-def allowedFlags : List String := []
+def allowedFlags : List String := ["atomicOutsideLock"]   -- an access through sync/atomic never races (Go memory model); C02 counts it as a step
 
 def pathOk (p : PathEntry) : Bool :=
   p.flags.all (allowedFlags.contains ·) && p.sects.all (fun s => decide s.WellLocked)
